@@ -33,7 +33,8 @@ func (m *Mutex) Unlock() {
 		return
 	}
 	if !m.locked {
-		panic("sync: unlock of unlocked mutex")
+		vs.Fatal("sync: unlock of unlocked mutex")
+		return
 	}
 	m.locked = false
 	vs.Touch(m, "unlock")
@@ -81,6 +82,10 @@ func (m *RWMutex) Unlock() {
 	if vs.Aborting() {
 		return
 	}
+	if !m.writer {
+		vs.Fatal("sync: Unlock of unlocked RWMutex")
+		return
+	}
 	m.writer = false
 	vs.Touch(m, "wunlock")
 }
@@ -97,6 +102,10 @@ func (m *RWMutex) RLock() {
 
 func (m *RWMutex) RUnlock() {
 	if vs.Aborting() {
+		return
+	}
+	if m.readers == 0 {
+		vs.Fatal("sync: RUnlock of unlocked RWMutex")
 		return
 	}
 	m.readers--
